@@ -437,6 +437,27 @@ Proof.
   - destruct (encl_applies n (1 - p) (Qden p)) eqn:E2; [|discriminate H]. injection H as <-. exact (A _ _ E2).
 Qed.
 
+(* the two statements as exported by Properties/C06.v (grouped: one Print Assumptions each) *)
+Theorem binom_enclosure_all :
+  (forall x k, 0 <= x <= 1 -> 1 - inject_Z (Z.of_nat k) * x <= qpow (1 - x) k) /\
+  (forall n p (flip : bool), (1 <= n)%Z -> 0 <= p <= 1 ->
+     let m := if flip then 1 - p else p in
+     (forall ki, (0 <= ki <= n)%Z ->
+        fst (epmf_encl n m flip ki) <= bin_prob n p ki /\ bin_prob n p ki <= snd (epmf_encl n m flip ki)) /\
+     (forall ki, (0 <= ki < n)%Z ->
+        fst (ecdf_encl n m flip ki) <= Qsum_range (bin_prob n p) 0 ki /\
+        Qsum_range (bin_prob n p) 0 ki <= snd (ecdf_encl n m flip ki))) /\
+  (forall n m flip ki,
+     snd (epmf_encl n m flip ki) - fst (epmf_encl n m flip ki) == encl_eps n m /\
+     snd (ecdf_encl n m flip ki) - fst (ecdf_encl n m flip ki) == encl_eps n m).
+Proof. split; [exact bernoulli|]. split; [exact binom_enclosure|exact encl_width]. Qed.
+Theorem encl_mode_all :
+  (forall n p (flip : bool), encl_side n p = Some flip ->
+     (1 <= n)%Z /\ encl_eps n (if flip then 1 - p else p) <= 1 # 1000000000000) /\
+  (forall lu x v, encl_close lu x = true -> fst lu <= v -> v <= snd lu ->
+     exists q, x = XFin q /\ Qabs (q - v) <= tol_abs).
+Proof. split; [exact encl_side_spec|exact encl_close_sound]. Qed.
+
 Lemma finish_e_accepted n p flip hdr items c tag pos diag :
   finish_e n p flip hdr items = verdict c tag pos diag -> (c = 0 \/ c = 1)%Z ->
   first_false hdr = None /\ exists tag', run_items_e n p (if flip then 1 - p else p) flip items 0%Z 0%Z = (tag', None).
